@@ -592,6 +592,33 @@ func TestVerif_C19_e2e(t *testing.T) {
 			s.Crash(tag+"dump", tag+"dump", ptxt, "")
 		}
 
+		// the caller reuses the slice it spread into WrapRoundTrip: the clone must still run what the original runs
+		ptxt, panicked = verifh.Safely(func() {
+			run := func(c *Client) string {
+				w.log = nil
+				c.R().Get(w.srv.URL)
+				return strings.Join(w.log, ",")
+			}
+			ws := []RoundTripWrapper{w.mkWrap(1), w.mkWrap(2)}
+			c := fresh().WrapRoundTrip(ws...)
+			ws[0] = w.mkWrap(3)
+			cc := cloneN(c)
+			a, b := run(c), run(cc)
+			obs(tag+"caller-reuses-wrapper-slice", a == b, "caller-slice-retained",
+				fmt.Sprintf("ws := {w1,w2}; c.WrapRoundTrip(ws...); ws[0] = w3; Clone: original ran %s, clone ran %s", a, b))
+			tws := []HttpRoundTripWrapper{w.mkTWrap(1), w.mkTWrap(2)}
+			c = fresh()
+			c.GetTransport().WrapRoundTrip(tws...)
+			tws[0] = w.mkTWrap(3)
+			cc = cloneN(c)
+			a, b = run(c), run(cc)
+			obs(tag+"caller-reuses-transport-wrapper-slice", a == b, "caller-slice-retained",
+				fmt.Sprintf("tws := {w1,w2}; t.WrapRoundTrip(tws...); tws[0] = w3; Clone: original ran %s, clone ran %s", a, b))
+		})
+		if panicked {
+			s.Crash(tag+"caller-slice", tag+"caller-slice", ptxt, "")
+		}
+
 		// retry options
 		ptxt, panicked = verifh.Safely(func() {
 			c := fresh().SetCommonRetryCount(2).SetCommonRetryInterval(w.mkInterval(1)).AddCommonRetryCondition(w.mkCond(2))
